@@ -100,6 +100,42 @@ STRENGTHENED = {
              "the real library with the witness values",
     "C20-8": "in-memory files receive data when the handle is flushed or closed (buffered-handle model); the file is read while "
              "the module object is alive",
+    # ---- round 5
+    "C03-9": "aggregation with undamped AggScaling as a C03 template; C16 (three responses of one module) catches the change as registered",
+    "C04-9": "real-typed seed on the complex output of LinSolve (new C01 item without pre-image); the linearity clause of C04 "
+             "holds for real scalars under this change",
+    "C04-10": "same fault as C03-1 (stale per-mode adjoint factorisation): caught by the sparse EigenSolve template of C03",
+    "C05-9": "CG object set up for another matrix and used in the same mode before update(A)",
+    "C05-10": "found by z3 at once; the witnesses could not be reproduced because LAPACK pivots differently for them (exit 2 "
+              "through the twin): witnesses now prefer matrices for which Bunch-Kaufman takes a 2x2 pivot without interchange",
+    "C07-9": "C07 builds one module per item; caught by C03 (LinSolve, second cycle with the matrix updated in place)",
+    "C08-10": "element matrix handed over as a transposed (not C-contiguous) view; generalised: every harness can duplicate items "
+              "with all input arrays as non-contiguous views (mem_layout=views)",
+    "C09-9": "process history: another DensityFilter / FilterConv on a mesh of the same size with another radius built first",
+    "C09-10": "kernels given as 1-D arrays",
+    "C10-9": "accuracy of the Newton iteration is outside the solver's reach; six concrete regression items (fixed data, real "
+             "subsolv, optimality conditions of the returned point) were added and are labelled as not a solver verdict",
+    "C11-9": "second response() of one EigenSolve with another shift / another B while A keeps its object (operator handed to ARPACK)",
+    "C11-10": "fixed ARPACK data of the complex Hermitian items no longer ascending (scipy hands back ARPACK's order there); the "
+              "behavioural replay puts the shift on either side of the spectral gap",
+    "C12-9": "the same Element/Nodal/ThermoMechanical module evaluated for a second field without reset",
+    "C13-9": "shape functions evaluated at a second point while the first results are still in use",
+    "C13-10": "connectivity for index arrays of rank 1 and 2+ (meshgrid selections)",
+    "C14-9": "found by z3 at once; lost in the replay because shift ~ 1e-76 was compared with an absolute tolerance: parameters "
+             "that are tiny by design are compared relative to their own size",
+    "C14-10": "C14 is about the forward result; the drift of the output state under sensitivity() is caught by C04 (states unchanged)",
+    "C15-9": "scalars that may be zero for s*D and add_dyad(fac=s)",
+    "C16-9": "aggregation parameters changed through their public attributes after a first evaluation",
+    "C16-10": "the same AggActiveSet object called a second time",
+    "C17-10": "stopping rule of one iteration as a clause (update written iff |dx|/|x| of the whole design >= tolx); also catches C17-6",
+    "C19-9": "re-used network whose upstream input changed before finite_difference is called",
+    "C19-10": "modules whose output state is a view of the perturbed input",
+    # ---- earlier seeds caught after later strengthenings
+    "C02-6": "networks built step by step with Network.append (inner network extended after nesting); observables are snapshots",
+    "C06-6": "LinSolve wrapping its solver: the class flags handed to the LDAWrapper must be true of the matrix",
+    "C15-6": "soft deadline per item: counterexamples of the explored paths are reported although the change multiplies the paths "
+             "(the run takes about half an hour under this change)",
+    "C17-6": "stopping rule of one iteration as a clause",
 }
 NOT_CAUGHT = {
     "C10-3": "outside the claim: the fault needs integer-typed design vectors (np.concatenate keeps int64, np.zeros_like then truncates "
@@ -109,16 +145,10 @@ NOT_CAUGHT = {
     "C18-4": "outside the claim: needs inf/nan entries in a sensitivity (x *= 0 keeps nan); non-finite values are not modelled",
     "C01-5": "not confirmed: z3 finds the dropped dyads (norm < 1e-12), but at that magnitude the finite-difference replay cannot tell "
              "0 from 6e-12 and the run ends inconclusive (494 sat answers, none reproduced); C15 does not finish under this change",
-    "C02-6": "reported as ENCODING-MISMATCH (exit 2, harness error), not as VIOLATION: the symbolic run passes, the concretised twin on "
-             "the real library disagrees because the fault lives in state kept between two runs in one process",
     "C03-6": "outside the claim: needs a nan/inf sensitivity entry",
     "C05-6": "outside the claim: accuracy of SuperLU without pivoting (the factorisation is a stub; only the class/flag admissibility of "
              "auto_determine_solver is decided, and the new option is unknown to that predicate)",
-    "C06-6": "not caught: needs LinSolve with the default LDAWrapper on a complex Hermitian matrix with the hermitian flag given; "
-             "complex LDAWrapper runs do not finish in the quick budget (thorough items exist, often inconclusive)",
     "C13-5": "outside the claim: needs integer-typed element sizes (dtype of the work array)",
-    "C15-6": "not decided: under this change (zero test through u.u instead of the norm) the C15 run did not finish within 25 minutes",
-    "C17-6": "outside the claim: stopping rule / convergence of the outer iteration",
     "C18-5": "outside the claim: mixing real and complex values inside one signal (listed in OUTSIDE of C18)",
     "C20-6": "outside the claim: needs an array of more than 262144 values (bound: meshes up to 15 elements per axis)",
     "C10-8": "outside the claim: stopping rule of the outer MMA iteration (|dx|/|x| with or without scaling by the variable ranges); "
